@@ -229,6 +229,23 @@ def build_operand(mg, o):
     return a, mg.tensor(a, copy=not (o.get("layout") and a.ndim), constant=o.get("constant"))
 
 
+def _special_exponent(draw, ops, base):
+    """`x ** c` / `power(x, c)` with a scalar exponent from the values an implementation is tempted to special-case
+    (Tensor.__pow__ short-cuts 1 and 2): -2 .. 3.5 in steps of 1/2 as a python float, 0 .. 3 as a python int or a NumPy
+    scalar; the base is a tensor of any dtype (NumPy promotes with the exponent, a short-cut may not)."""
+    k = draw(st.sampled_from(["pyfloat", "pyfloat", "pyint", "npscalar"]))
+    if k == "pyfloat":
+        ex = {"kind": k, "v": draw(st.integers(-2, 3)), "half": draw(st.booleans()), "tenth": False, "special": True}
+    elif k == "pyint":
+        ex = {"kind": k, "v": draw(st.integers(0, 3)), "half": False, "tenth": False}
+    else:
+        ex = {"kind": k, "dtype": draw(st.sampled_from(["float32", "float64", "int64", "float16"])), "v": draw(st.integers(0, 3))}
+    if "shape" not in ops[0]:
+        ops[0] = _operand(draw, base, force_tensor=True)
+    ops[0]["kind"] = "tensor"
+    ops[1] = ex
+
+
 @st.composite
 def cases(draw):
     fam = draw(st.sampled_from(["unary", "unary", "binary", "binary", "binary", "operator", "operator", "reduce", "reduce", "cum",
@@ -259,7 +276,7 @@ def cases(draw):
             if cand:
                 ops[cand[0]]["kind"] = "tensor"
     elif fam == "operator":
-        name = draw(st.sampled_from(sorted(OPERATORS)))
+        name = draw(st.sampled_from(sorted(OPERATORS) + ["op_pow", "op_pow"]))
         if name == "op_matmul":
             k = draw(st.integers(1, 3))
             ops = [_operand(draw, draw(st.sampled_from([[k], [2, k]])), allow_scalar=False),
@@ -275,6 +292,8 @@ def cases(draw):
                 ops[cand[0]]["kind"] = "tensor"
             else:
                 ops[0] = _operand(draw, base, force_tensor=True)
+        if name == "op_pow" and draw(st.integers(0, 2)) > 0:
+            _special_exponent(draw, ops, base)
     elif fam == "nondiff":
         name = draw(st.sampled_from(NONDIFF + sorted(NONDIFF_OPERATORS) * 2))
         if name in BOOL_UN + CONST_UN:
@@ -289,7 +308,7 @@ def cases(draw):
                     ops[cand[0]]["kind"] = "tensor"
                 else:
                     ops[0] = _operand(draw, base, force_tensor=True)
-        sc = [o for o in ops if o["kind"] == "pyfloat"]
+        sc = [o for o in ops if o["kind"] == "pyfloat" and not o.get("special")]
         tn = [o for o in ops if o["kind"] == "tensor" and o.get("vals")]
         if sc and tn and draw(st.booleans()):
             # a python float that low-precision floats cannot represent, equal (as a decimal) to an element of the
